@@ -62,15 +62,26 @@ pub fn lib<R>(f: impl FnOnce() -> R) -> R {
     f()
 }
 
+thread_local! {
+    /// only the thread that executes scenarios is recorded: the watchdog (and the runtime's own start-up work in
+    /// other threads, whose timing depends on the machine's load) must never show up in a trace
+    static WORKER: std::cell::Cell<bool> = const { std::cell::Cell::new(false) };
+}
+pub fn mark_worker_thread() {
+    WORKER.with(|w| w.set(true));
+}
+fn on_worker() -> bool {
+    WORKER.try_with(|w| w.get()).unwrap_or(false)
+}
 fn recording() -> bool {
-    RECORD_ALLOC.load(Ordering::SeqCst) && IN_LIB.load(Ordering::SeqCst) > 0 && !bypassed()
+    RECORD_ALLOC.load(Ordering::SeqCst) && IN_LIB.load(Ordering::SeqCst) > 0 && !bypassed() && on_worker()
 }
 fn recording_raw() -> bool {
-    RECORD_ALLOC.load(Ordering::SeqCst) && IN_LIB.load(Ordering::SeqCst) > 0
+    RECORD_ALLOC.load(Ordering::SeqCst) && IN_LIB.load(Ordering::SeqCst) > 0 && on_worker()
 }
 fn known(p: *mut u8) -> bool {
     // never while the harness itself is allocating / logging (the BLOCKS lock may be held)
-    if !RECORD_ALLOC.load(Ordering::SeqCst) || bypassed() {
+    if !RECORD_ALLOC.load(Ordering::SeqCst) || bypassed() || !on_worker() {
         return false;
     }
     let _b = Bypass::new();
